@@ -67,9 +67,9 @@ def harnesses(tier):
         hs.append(Harness('c01.recv_stream.drop_restart', mk_scenario([FORMS_A[:2], FORMS_B[1:3]], 2, 12, 0, drops=1, restart=True),
                           bounds={'sources': 2, 'forms': '2 x 2', 'publishes_per_source': 2, 'poll_decisions': 12, 'lost_parts': '<=1',
                                   'publisher_restarts': '<=1 per source'}, functions=fn, stubs=stubs, assumptions=assume, budget_s=1800))
-        hs.append(Harness('c01.recv_stream.3src', mk_scenario([FORMS_A[:1], FORMS_B[1:2], FORMS_C[1:]], 2, 12, 0),
-                          bounds={'sources': 3, 'forms': '1 x 1 x 1 (third source remapped c>cc, publishes c and d)', 'publishes_per_source': 2, 'poll_decisions': 12},
-                          functions=fn, stubs=stubs, assumptions=assume, budget_s=1800))
+        hs.append(Harness('c01.recv_stream.3src', mk_scenario([FORMS_A[:1], FORMS_B[1:2], FORMS_C[:1]], 2, 12, 0),
+                          bounds={'sources': 3, 'forms': '1 x 1 x 1', 'publishes_per_source': 2, 'poll_decisions': 12},
+                          functions=fn, stubs=stubs, assumptions=assume, budget_s=2400))
     q = tier == 'quick'
     hs.append(Harness('c01.recv_stream.ctrl', mk_scenario([FORMS_A[:1], FORMS_B[:2] if q else FORMS_B[:4]], 2, 12, 0 if q else 1, ctrl=True),
                       bounds={'sources': 2, 'forms': '1 x 2' if q else '1 x 4', 'publishes_per_source': 2, 'poll_decisions': 12, 'not_yet_answers': 0 if q else 1,
